@@ -1,6 +1,7 @@
 import GrmVerif.Lemmas.Total
 import GrmVerif.Lemmas.Analyses2
 import GrmVerif.Lemmas.Recog
+import GrmVerif.Lemmas.FollowsImpl
 /-!
 # C17 — grammar analyses (FIRST, FOLLOW, nullable, reachability, costs) are exact
 
@@ -101,6 +102,68 @@ theorem reference_analyses_total (G : Grammar) : ∃ An, analyses G = some An :=
 /-- likewise the reference rule reachability -/
 theorem reference_reach_total (G : Grammar) (A : Nat) : ∃ R, reach G A = some R := Total.reach_total G A
 
+/-! ### the Rust algorithms themselves
+
+`Model/FirstsFollowsImpl.lean` transcribes the loops of `YaccFirsts::new` (firsts.rs) and
+`YaccFollows::new` (follows.rs): rules and productions in index order, the token loop of every row
+union, the epsilon bits, the early `break`s, the right-to-left pass over a production with its local
+`epsilon`, the `changed` flag; the outer `loop` takes fuel and an out-of-range symbol index is a panic.
+The theorems below are about these models (the driver prints their answers next to the real code's on
+every generated grammar, line `Mf`). -/
+
+/-- **`YaccFirsts::new` is exact and terminates.** For every well-formed grammar the model of the
+constructor neither panics nor needs more than `nrules·(ntoks+1)+1` rounds of its outer loop (every
+round but the last sets a bit that was clear) — with that or any larger fuel it returns the same table
+`fst` — and in `fst` the bit of rule `r` and token `t` is set exactly when `t` can begin a string
+derived from `r` (`FirstP`), the epsilon bit of `r` exactly when `r` derives the empty string
+(`NullableR`). -/
+theorem firsts_impl_exact (G : Grammar) (hwf : G.wf = true) :
+    ∃ fst : Impl.Firsts,
+      (∀ fuel, G.nrules * (G.ntoks + 1) + 1 ≤ fuel → Impl.firstsNew G fuel = .done fst) ∧
+      (∀ r t, fst.isSet r t = true ↔ FirstP G r t) ∧
+      (∀ r, fst.isEpsilonSet r = true ↔ NullableR G r) := by
+  obtain ⟨fst, h1, hx⟩ := Impl.firstsNew_exact G hwf
+  exact ⟨fst, h1, hx.first, hx.eps⟩
+
+/-- **`YaccFollows::new` is exact and terminates.** For every well-formed grammar, run on the table
+`fst` that (the model of) `YaccFirsts::new` returns, the model of the constructor neither panics nor
+needs more than `nrules·ntoks+1` rounds, returns the same table `W` for every larger fuel, and the
+bit of rule `A` and token `t` (`G.eof` = end of input) is set in `W` exactly when `t` can follow `A`
+in a sentential form (`FollowP`). -/
+theorem follows_impl_exact (G : Grammar) (hwf : G.wf = true) :
+    ∃ (fst : Impl.Firsts) (W : List (List Bool)),
+      (∀ fuel, G.nrules * (G.ntoks + 1) + 1 ≤ fuel → Impl.firstsNew G fuel = .done fst) ∧
+      (∀ fuel, G.nrules * G.ntoks + 1 ≤ fuel → Impl.followsNew G fst fuel = .done W) ∧
+      (∀ A t, Impl.mget W A t = true ↔ FollowP G A t) := by
+  obtain ⟨fst, h1, hx⟩ := Impl.firstsNew_exact G hwf
+  obtain ⟨W, h2, h3⟩ := Impl.followsNew_exact G hwf fst hx
+  exact ⟨fst, W, h1, h2, h3⟩
+
+/-- equivalently: the models of the two constructors compute exactly the verified reference analyses
+(the `S` line of the driver), bit for bit. -/
+theorem impl_equals_reference (G : Grammar) (hwf : G.wf = true) :
+    ∃ (fst : Impl.Firsts) (W : List (List Bool)) (A : Analyses),
+      Impl.firstsNew G (Impl.firstsFuel G) = .done fst ∧
+      Impl.followsNew G fst (Impl.followsFuel G) = .done W ∧
+      analyses G = some A ∧
+      (∀ r, fst.isEpsilonSet r = A.nullable.contains r) ∧
+      (∀ r t, fst.isSet r t = A.first.contains (r, t)) ∧
+      (∀ r t, Impl.mget W r t = A.follow.contains (r, t)) := by
+  obtain ⟨fst, W, h1, h2, h3⟩ := follows_impl_exact G hwf
+  obtain ⟨_, h1', hF, hE⟩ := firsts_impl_exact G hwf
+  have e := (h1' _ (Nat.le_refl _)).symm.trans (h1 _ (Nat.le_refl _))
+  simp only [Impl.Outcome.done.injEq] at e
+  subst e
+  obtain ⟨A, hA⟩ := Total.analyses_total G
+  obtain ⟨a1, a2, a3⟩ := analyses_exact G hwf A hA
+  refine ⟨_, W, A, h1 _ (Nat.le_refl _), h2 _ (Nat.le_refl _), hA, ?_, ?_, ?_⟩
+  · intro r
+    rw [Bool.eq_iff_iff, hE r, ← a1 r]; simp
+  · intro r t
+    rw [Bool.eq_iff_iff, hF r t, ← a2 r t]; simp
+  · intro r t
+    rw [Bool.eq_iff_iff, h3 r t, ← a3 r t]; simp
+
 /-! ### non-vacuity (tests) -/
 
 /-- `^: S; S: A B 'c'; A: 'a' | ; B: 'b' | ;` tokens a=0 b=1 c=2 eof=3; rules ^=0 S=1 A=2 B=3 -/
@@ -112,5 +175,7 @@ example : exG.wf = true := by decide
 example : (analyses exG).map (·.nullable) = some [2, 3] := by decide
 example : ((analyses exG).map (fun a => a.follow.contains (2, 2))) = some true := by decide
 example : minCosts exG (fun _ => 1) = some [some 1, some 1, some 0, some 0] := by decide
+example : (match Impl.firstsNew exG (Impl.firstsFuel exG) with
+    | .done f => some f.epsilons | _ => none) = some [false, false, true, true] := by decide
 
 end GrmVerif.C17
